@@ -3,6 +3,7 @@
 Everything here is independent of set-iteration order: only lists, sorted()
 and a seeded random.Random are used, so the same (tier, seed) gives the same
 cases under every PYTHONHASHSEED."""
+import os
 import itertools
 import random
 
@@ -176,6 +177,63 @@ def random_circuit(rng, n_in=3, n_gates=5, types=GATES, max_fanin=3, p_const=0.0
         cand = [r for r in nodes if r[1] not in ("bb_input", "bb_output", "input")] or nodes
         cand[-1][2] = True
     return {"name": name, "nodes": nodes, "edges": edges, "bbs": bbs}
+
+
+def source_templates():
+    """Name templates that occur as f-strings in the CURRENT source of the library under test (identifier characters
+    only, 1..3 holes): e.g. ("", "_limit_fanin_", ""), ("c0_", ""), ("xor_inv_", "").  Adversarial node names are built
+    from them, so a name scheme introduced by a change to the library is tried on the very run that checks the change."""
+    import ast
+    import glob
+    import re
+    from vlib import REPO
+    out = set()
+    for f in sorted(glob.glob(os.path.join(REPO, "circuitgraph", "*.py"))):
+        try:
+            tree = ast.parse(open(f).read())
+        except (OSError, SyntaxError):
+            continue
+        for n in ast.walk(tree):
+            if isinstance(n, ast.JoinedStr):
+                parts = [""]
+                for v in n.values:
+                    if isinstance(v, ast.Constant) and isinstance(v.value, str):
+                        parts[-1] += v.value
+                    else:
+                        parts.append("")
+                holes = len(parts) - 1
+                if 1 <= holes <= 3 and any(parts) and all(len(q) <= 24 and re.fullmatch(r"[A-Za-z0-9_.]*", q) for q in parts):
+                    out.add(tuple(parts))
+    return sorted(out)
+
+
+def instantiate(template, fillers):
+    """template = tuple of literal parts; fillers: one string per hole"""
+    s = template[0]
+    for h, q in zip(fillers, template[1:]):
+        s += str(h) + q
+    return s
+
+
+def template_family(gate_types=("and", "nand", "or", "nor", "xor", "xnor", "not", "buf")):
+    """small circuits in which one node is named like something the library could derive from gate `g`:
+    inputs a, b; g = <type>(a, b); e = <template instantiated with g> as a free input; h = and(g, e) (output).
+    Every template of the current source x every gate type."""
+    for t in source_templates():
+        holes = len(t) - 1
+        fills = [["g"] + ["0"] * (holes - 1), ["a"] * (holes - 1) + ["g"]] if holes > 1 else [["g"]]
+        for fl in fills:
+            e = instantiate(t, fl)
+            if e in ("a", "b", "g", "h") or not e or e[0].isdigit() or "." in e:
+                continue
+            for ty in gate_types:
+                fis = ["a"] if ty in ("not", "buf") else ["a", "b"]
+                nodes = [["a", "input", False], ["b", "input", False], ["g", ty, True], [e, "input", False], ["h", "and", True]]
+                edges = [[f, "g"] for f in fis] + [["g", "h"], [e, "h"]]
+                if ty in ("not", "buf"):
+                    nodes.append(["k", "or", True])
+                    edges += [["b", "k"], [e, "k"]]
+                yield {"name": "tpl", "nodes": nodes, "edges": edges, "bbs": {}}
 
 
 def rng_for(seed, *salt):
